@@ -25,7 +25,7 @@ structure Sym where
   kind : Bytes
   parent : Bytes
   parentKind : Bytes
-  deriving Repr, DecidableEq, BEq
+  deriving Repr, DecidableEq
 
 structure Doc where
   name : Bytes
